@@ -13,6 +13,7 @@ import (
 	"verif/h/gen"
 	"verif/h/mon"
 	"verif/h/rfc8907"
+	"verif/h/simnet"
 )
 
 // C04 — decoding arbitrary bytes is total, memory-safe and bounded.
@@ -107,6 +108,9 @@ type decodeTarget struct {
 	// run decodes in and returns (ok, canonical summary). It must not touch
 	// bytes of aliased results beyond availLen.
 	run func(in []byte) (bool, func() string, string)
+	// slack is added to the allocation bound: what the harness itself allocates inside run
+	// (the in-memory connection of the stream target)
+	slack uint64
 }
 
 func constSummary(s string) func() string { return func() string { return s } }
@@ -155,6 +159,31 @@ var packetTarget = decodeTarget{name: "packet", run: func(in []byte) (bool, func
 	avail := len(in) - 12
 	if len(p.Body) > avail {
 		// do not read it: under the guard placement that would fault in the monitor
+		return true, constSummary(fmt.Sprintf("OVERREAD body=%d available=%d", len(p.Body), avail)), ""
+	}
+	return true, func() string { return fmt.Sprintf("%+v|%x", *p.Header, p.Body) }, ""
+}}
+
+// streamTarget decodes the bytes the way a receiver on a connection does: they are the whole reply
+// stream (then EOF) a Client.Send finds on its connection.
+var streamTarget = decodeTarget{name: "client-stream", slack: 32 << 10, run: func(in []byte) (bool, func() string, string) {
+	world := simnet.New()
+	world.SetKeepLog(false)
+	conn := world.NewConn(simnet.RemoteFor(1))
+	conn.Feed(in)
+	conn.EOF()
+	cl := tq.NewClientFromConn(conn, []byte("stream-secret"))
+	req := tq.NewPacket(tq.SetPacketHeader(tq.NewHeader(tq.SetHeaderVersion(tq.Version{MajorVersion: 0xc}), tq.SetHeaderType(tq.Authenticate),
+		tq.SetHeaderSeqNo(1), tq.SetHeaderSessionID(7))), tq.SetPacketBody([]byte{1, 1, 1, 1, 0, 0, 0, 0}))
+	p, err := cl.Send(req)
+	if err != nil {
+		return false, nil, err.Error()
+	}
+	if p == nil || p.Header == nil {
+		return true, constSummary("nil-packet"), ""
+	}
+	avail := len(in) - 12
+	if len(p.Body) > avail {
 		return true, constSummary(fmt.Sprintf("OVERREAD body=%d available=%d", len(p.Body), avail)), ""
 	}
 	return true, func() string { return fmt.Sprintf("%+v|%x", *p.Header, p.Body) }, ""
@@ -259,7 +288,7 @@ func (c *c04ctx) judge(t decodeTarget, kind string, in []byte) {
 		return
 	}
 	// allocation bound
-	bound := uint64(16*len(in) + 64*1024)
+	bound := uint64(16*len(in)+64*1024) + t.slack
 	if oe.alloc > bound {
 		w := witness()
 		w["allocated"] = oe.alloc
@@ -409,6 +438,9 @@ func runC04(b *mon.B) {
 			}
 			h := rfc8907.Header{Major: 0xc, Minor: r.Intn(2), Type: typeOf[layout], Seq: 1 + 2*r.Intn(127), Flags: r.Intn(8), Session: r.U32(), Length: uint32(ln)}
 			c.judge(packetTarget, fmt.Sprintf("hdrlen-%s", relLen(ln, len(enc))), append(h.Encode(), enc...))
+			if (k+int(ln))%2 == 0 {
+				c.judge(streamTarget, fmt.Sprintf("hdrlen-%s", relLen(ln, len(enc))), append(h.Encode(), enc...))
+			}
 		}
 	}
 	// --- headers: every truncation, field corruption
@@ -418,17 +450,23 @@ func runC04(b *mon.B) {
 		for n := 0; n <= 12; n++ {
 			c.judge(headerTarget, "truncated", enc[:n])
 			c.judge(packetTarget, "truncated-header", enc[:n])
+			if k%4 == 0 {
+				c.judge(streamTarget, "truncated-header", enc[:n])
+			}
 		}
 		m := append([]byte{}, enc...)
 		m[r.Intn(12)] = r.Byte()
 		c.judge(headerTarget, "corrupt", m)
 		c.judge(packetTarget, "corrupt-header-nobody", m)
+		c.judge(streamTarget, "corrupt-header-nobody", m)
 		c.judge(headerTarget, "long", append(enc, r.Bytes(r.Intn(30))...))
 	}
 	// the anchor's own example: 12-byte header announcing 100 body bytes followed by 5
 	ex := rfc8907.Header{Major: 0xc, Minor: 0, Type: 1, Seq: 1, Session: 0xdeadbeef, Length: 100}
 	c.judge(packetTarget, "hdrlen-more", append(ex.Encode(), 1, 2, 3, 4, 5))
 	c.judge(packetTarget, "hdrlen-more", ex.Encode())
+	c.judge(streamTarget, "hdrlen-more", append(ex.Encode(), 1, 2, 3, 4, 5))
+	c.judge(streamTarget, "hdrlen-more", ex.Encode())
 	// --- random bytes to every decoder
 	randomBodies(r, b.N(700, 14000), func(kind string, in []byte) {
 		l := allLayouts[r.Intn(len(allLayouts))]
@@ -447,6 +485,7 @@ func runC04(b *mon.B) {
 				}
 				m[8], m[9] = 0, m[9]&1
 				c.judge(packetTarget, "random-validhdr", m)
+				c.judge(streamTarget, "random-validhdr", m)
 			}
 		default:
 			c.judge(fields[r.Intn(len(fields))], kind, in)
